@@ -288,12 +288,15 @@ double GammaQ(double x, double a)
 	}
 	else if(x == 0)
 		return 1.0;
-	else if(a > aMax)
-		return GammaQint(x, a);
+	double Q;
+	if(a > aMax)
+		Q = GammaQint(x, a);
 	else if(x < a + 1.0)
-		return 1.0 - GammaPser(x, a);
+		Q = 1.0 - GammaPser(x, a);
 	else
-		return GammaQcf(x, a);
+		Q = GammaQcf(x, a);
+	// Q is a probability: the quadrature (a > 100) and the subtraction (tiny a) can leave [0,1] by their rounding or truncation error.
+	return std::min(1.0, std::max(0.0, Q));
 }
 
 double GammaP(double x, double a)
